@@ -11,7 +11,9 @@ EXTENDS Integers, Sequences, FiniteSets, TLC, Json
 
 CONSTANTS Shapes,        \* set of restart shapes [len0, every0, every1, chk]: iterations of level 0 = multiples of every0 ..., chk = checkpoints
           MaxRestarts, MaxCalls,
-          Names, Layouts, Emit
+          Names, Layouts, Emit,
+          NLevels,       \* set of level counts (levels >= 1 share the stride every1; more than 10 levels make " rl=1" a prefix of " rl=10")
+          VarSets        \* VarSets[(k % Len) + 1] = variables of thorns unknown to aurel that restart k wrote besides lapse and shift
 
 VARIABLES restarts,   \* sequence of [lo, hi, every0, every1, chk]  (restart number = index - 1)
           recorded,   \* sequence of restart numbers with a record in iterations.txt, in file order
@@ -28,13 +30,15 @@ Existing == 0 .. Len(restarts) - 1
 Min(S) == CHOOSE x \in S : \A y \in S : x <= y
 Max(S) == CHOOSE x \in S : \A y \in S : x >= y
 (* what is on disk for restart r *)
-Scan(r) == [its |-> <<Min(Its(r, 0) \cup (IF nlev = 2 THEN Its(r, 1) ELSE {})), Max(Its(r, 0) \cup (IF nlev = 2 THEN Its(r, 1) ELSE {}))>>,
+AnyIts(r) == UNION {Its(r, l) : l \in 0 .. nlev - 1}
+Scan(r) == [its |-> <<Min(AnyIts(r)), Max(AnyIts(r))>>,
+            vars |-> {"alpha", "betaup3"} \cup VarSets[(r % Len(VarSets)) + 1],
             rl  |-> [l \in 0 .. nlev - 1 |->
                        IF Cardinality(Its(r, l)) = 1 THEN <<Min(Its(r, l))>>
                        ELSE <<Min(Its(r, l)), Max(Its(r, l)), IF l = 0 THEN restarts[r + 1].every0 ELSE restarts[r + 1].every1>>],
             chk |-> restarts[r + 1].chk]
 
-Init == /\ name \in Names /\ layout \in Layouts /\ nlev \in {1, 2}
+Init == /\ name \in Names /\ layout \in Layouts /\ nlev \in NLevels
         /\ \E s \in Shapes : restarts = <<[lo |-> 0, hi |-> (s.len0 + 1) * s.every0 - 1, every0 |-> s.every0, every1 |-> s.every1, chk |-> s.chk]>>
         /\ recorded = << >> /\ hasContent = {} /\ hist = << >> /\ fileExists = FALSE
 
